@@ -47,7 +47,7 @@ type World struct {
 func NewWorld(r *rand.Rand) *World {
 	u := gen.NewUniverse(r, gen.Opts{NLogs: 2, MaxSize: 40, Branches: 2, Unique: true})
 	for _, l := range u.Logs {
-		l.ReplaceBranch(1, &reftree.Tree{Seed: l.Branches[0].Seed, TagA: 1, TagB: 4, Fork: 2})
+		l.ReplaceBranch(1, &reftree.Tree{Seed: l.Branches[0].Seed, TagA: 1, TagB: 4, Fork: 0} /* branch 1 shares no leaf with branch 0: never consistent with anything stored */)
 	}
 	keys, _ := wit.NewWitKeys(r, []bool{false, true}, true)
 	w := &World{U: u, A: u.Logs[0], B: u.Logs[1], Keys: keys}
